@@ -62,6 +62,20 @@ fn main() {
     run_main(PROP)
 }
 
+/// polynomial weights with UNEQUAL low / high lengths (1..3 coefficients), and for one variable in
+/// four a long one (32 or 33 coefficients, the last ones non-zero) to reach the truncation limit
+fn poly_weight(v: usize, w: (f64, f64)) -> (Vec<f64>, Vec<f64>) {
+    let lo: Vec<f64> = match v % 3 { 0 => vec![w.0], 1 => vec![w.0, 1.0], _ => vec![w.0, 0.0, 1.0] };
+    let mut hi: Vec<f64> = match v % 3 { 0 => vec![w.1, w.0], 1 => vec![w.1], _ => vec![w.1, 1.0] };
+    if v % 4 == 3 {
+        hi = vec![0.0; 32 + (v % 2)];
+        hi[0] = w.1;
+        hi[31] = 1.0;
+        if hi.len() > 32 { hi[32] = 2.0; }
+    }
+    (lo, hi)
+}
+
 pub fn gen(rng: &mut Rng, idx: usize, n: usize, thorough: bool) -> String {
     let frac = (idx * 100) / n.max(1);
     let maxv = if thorough { 7 } else { 5 };
@@ -174,13 +188,14 @@ pub fn run(case: &str, st: &mut Stats) -> Outcome {
         for v in 0..total {
             wmc_param_f64_set_weight(wr, v as u64, w[v].0, w[v].1);
             wmc_param_complex_set_weight(wc, v as u64, Complex { re: w[v].0, im: w[v].1 }, Complex { re: w[v].1, im: -w[v].0 });
-            let (lc, hc) = ([w[v].0, 1.0], [w[v].1, w[v].0]);
-            wmc_param_poly_set_weight(wp, v as u64, lc.as_ptr(), 2, hc.as_ptr(), 2);
+            let (lc, hc) = poly_weight(v, w[v]);
+            wmc_param_poly_set_weight(wp, v as u64, lc.as_ptr(), lc.len(), hc.as_ptr(), hc.len());
         }
         let nreal: WmcParams<RealSemiring> = WmcParams::new(HashMap::from_iter((0..total).map(|v| (VarLabel::new(v as u64), (RealSemiring(w[v].0), RealSemiring(w[v].1))))));
         let ncx: WmcParams<Complex> = WmcParams::new(HashMap::from_iter((0..total).map(|v| (VarLabel::new(v as u64), (Complex { re: w[v].0, im: w[v].1 }, Complex { re: w[v].1, im: -w[v].0 })))));
-        let mkp = |a: f64, b: f64| { let mut q = Polynomial::<RealSemiring>::zero(); q.coefficients[0] = RealSemiring(a); q.coefficients[1] = RealSemiring(b); q.len = 2; q };
-        let npl: WmcParams<Polynomial<RealSemiring>> = WmcParams::new(HashMap::from_iter((0..total).map(|v| (VarLabel::new(v as u64), (mkp(w[v].0, 1.0), mkp(w[v].1, w[v].0))))));
+        // native polynomial from a coefficient slice: at most MAX_COEFFS = 32 coefficients are kept
+        let mkp = |c: &[f64]| { let mut q = Polynomial::<RealSemiring>::zero(); let n = c.len().min(32); for i in 0..n { q.coefficients[i] = RealSemiring(c[i]); } q.len = n; q };
+        let npl: WmcParams<Polynomial<RealSemiring>> = WmcParams::new(HashMap::from_iter((0..total).map(|v| { let (lc, hc) = poly_weight(v, w[v]); (VarLabel::new(v as u64), (mkp(&lc), mkp(&hc))) })));
         for k in 0..cpool.len() {
             let c = cpool[k];
             let n = npool[k];
